@@ -712,6 +712,11 @@ class Server(utils.EventEmitter):
         '''
         See Bluetooth spec Vol 3, Part F - 3.4.2.1 Exchange MTU Request
         '''
+        if att.is_enhanced_bearer(bearer):
+            # The MTU of an enhanced bearer is that of its L2CAP channel and
+            # cannot be exchanged
+            raise att.ATT_Error(att.ATT_REQUEST_NOT_SUPPORTED_ERROR)
+
         self.send_response(
             bearer, att.ATT_Exchange_MTU_Response(server_rx_mtu=self.max_mtu)
         )
